@@ -90,9 +90,12 @@ def pool_problems(path):
             return ["the pool is collected from another loop than the one that reads the constants"]
         if lp.get("filtered") or tuple(lp.get("pipeline") or ()) != ("map",):
             return ["the constants read pass through %s before they are collected" % (list(lp.get("pipeline") or ()),)]
-        for q in lp["paths"]:
+        for qi, q in enumerate(lp["paths"]):
             reads = [x["res"] for x in q["eff"] if x["k"] == "sub_read"]
-            if len(reads) != 1 or q["out"] != ("val", reads[0]):
+            yielded = q["out"][1] if q["out"][0] == "val" else None
+            if lp.get("pushes_into") is not None:
+                yielded = lp["results"][qi] if qi < len(lp.get("results", [])) else None     # a push loop: what was pushed
+            if len(reads) != 1 or yielded != reads[0]:
                 return ["an iteration does not yield exactly the constant it read"]
         return []
     if inner[0] == "obj":
@@ -363,7 +366,11 @@ def writer_variant(fx, role, adt, variant):
         return _cache[key]
     out = []
     for p in paths:
-        if not (p["out"][0] == "val" and p["out"][1][0] == "ok"):
+        o = p["out"]
+        # success: an explicit Ok(..), or the last write's own Result handed back (Ok exactly when that write succeeded)
+        handed_back = o[0] == "val" and isinstance(o[1], tuple) and o[1][0] == "fall" and any(
+            e.get("res") == o[1] and e["k"] in ("call", "sub_write") for e in p["eff"])
+        if not (o[0] == "val" and isinstance(o[1], tuple) and (o[1][0] == "ok" or handed_back)):
             continue
         items = w_items(p["eff"])
         fl, probs = parse_writer(items, None, self_fields)
@@ -460,6 +467,17 @@ def check_writer_variant(spec, layouts, variant):
 
 # ----------------------------------------------------------------------------------- reader
 
+def loop_count(rng):
+    """the number of iterations of a loop over `0..n` or over the elements of `vec![x; n]`: the term n, else None"""
+    if rng[0] == "iter" and rng[1][0] == "ctor":
+        f = dict(rng[1][3])
+        if f.get("start") == lit(0):
+            return f.get("end")
+    if rng[0] == "iter" and rng[1][0] == "app" and rng[1][1] == "vec_repeat" and len(rng[1][2]) == 2:
+        return rng[1][2][1]
+    return None
+
+
 def r_items(effs):
     out = []
     for e in effs:
@@ -486,6 +504,8 @@ def decode_of(t, sym):
     if isinstance(t, tuple):
         if t and t[0] == "app" and t[1] in ("from_le_bytes", "from_be_bytes", "from_ne_bytes") and t[2][1] == sym:
             return (t[2][0][1], t[1][5:7])
+        if t and t[0] == "app" and t[1] == "index" and t[2][0] == sym and t[2][1] == lit(0):
+            return ("u8", "le")          # `let [byte] = buf` / `buf[0]` of a one-byte read: the byte itself
         for x in t:
             if isinstance(x, tuple):
                 r = decode_of(x, sym)
@@ -505,6 +525,8 @@ def wrapper_of(t, sym):
         elif t[0] == "app" and t[1] == "cast" and len(t[2]) == 2:
             t = t[2][1]
         elif t[0] == "app" and t[1] in ("from_le_bytes", "from_be_bytes", "from_ne_bytes") and t[2][1] == sym:
+            return None
+        elif t[0] == "app" and t[1] == "index" and t[2][0] == sym and t[2][1] == lit(0):
             return None
         elif t[0] == "app":
             return t[1]
@@ -545,6 +567,27 @@ def reader_variants(fx, role, adt):
                     tag = b[1]
                     tag_dec = decode_of(a, tag_sym)
         out.setdefault(tag, []).append({"variant": o[1][2], "term": o[1], "items": items, "tag_width": items[0][1], "tag_dec": tag_dec, "eff": p["eff"]})
+    spec = S3_CONST if adt == PO else S3_OP
+    want_tags = {t for t, _ in spec.values()}
+    if None in out or not want_tags <= set(out):
+        # the decoder is not one `match tag { literal => .. }`: decide it tag by tag instead — the first byte read is fixed
+        # to each value in turn, so every test on it (ranges, ==, nested matches, tables) evaluates concretely
+        out2 = {}
+        for t in sorted(want_tags | set(range(0, max(want_tags) + 3))):
+            try:
+                ex, paths_t = run(fx, A.get(role), args, first_byte=t)
+            except Exception as e:
+                continue
+            for p in paths_t or []:
+                o = p["out"]
+                if not (o[0] == "val" and o[1][0] == "ctor" and o[1][1] == adt):
+                    continue
+                items = r_items(p["eff"])
+                if not items or items[0][0] != "r" or items[0][1] != 1:
+                    continue
+                out2.setdefault(t, []).append({"variant": o[1][2], "term": o[1], "items": items, "tag_width": 1, "tag_dec": ("u8", "le"), "eff": p["eff"], "concrete_tag": True})
+        if out2:
+            out = out2
     _cache[key] = (out, None)
     return _cache[key]
 
@@ -576,6 +619,8 @@ def parse_reader(L):
                     f = dict(rng[1][3])
                     if f.get("start") == lit(0):
                         end = f.get("end")
+                elif rng[0] == "iter" and rng[1][0] == "app" and rng[1][1] == "vec_repeat" and len(rng[1][2]) == 2:
+                    end = rng[1][2][1]          # one visit per element of `vec![x; n]`
                 cnt_dec = decode_of(end, sym) if end is not None else None
                 bodies = nxt[2]
                 elem = None
